@@ -522,6 +522,12 @@ func (w *Worker) RunJob(job Job) (res *JobResult) {
 	}()
 	w.Bank.Rollback(w.mark)
 	w.Pool.Reset(w.Bank)
+	// heavy instances (hundreds of conditions) get more solver time: they run while all other
+	// workers keep the cores busy
+	w.Pool.DecideTimeout = 60 * time.Second
+	if job.Weight >= 1000 {
+		w.Pool.DecideTimeout = 420 * time.Second
+	}
 	in := w.In
 	in.ResetInstance()
 	in.Params = job.Params
